@@ -41,7 +41,7 @@ pub fn run(rep: &mut Report) {
                 let j = both as f64 / u as f64;
                 let degenerate = j == 0. || j == 1.;
                 let cost = (u + m * if is_rev { 40 } else { 4 }) as f64;
-                let budget: f64 = rep.tier.pick(1.5e8, 1.2e10);
+                let budget: f64 = rep.tier.pick(1.5e8, 6e9);
                 let tt = ((budget / cost) as u64).clamp(400, t1);
                 let kindt = if degenerate { Kind::Exact } else { Kind::TwoSided };
                 // disjoint sets: the u64 view holds item hashes (exactly 0 collisions); two different items can legitimately draw the
@@ -143,7 +143,7 @@ pub fn run(rep: &mut Report) {
                 let targets = vec![Target::new("float_view", 1e-9, Kind::Upper), Target::new("u64_view", 0., Kind::Exact), Target::new("u32_view", 1e-6, Kind::Upper)];
                 let seed = subseed(rep.seed, "C08/structured", &[ki as u64, fi as u64, m as u64]);
                 let (rs, trials) = staged(seed, tt, 2, &targets, |rng, out| {
-                    let base: u64 = rng.random_range(1..1_000_000);
+                    let base: u64 = rng.random_range(1_000..1_000_000); // >= 1000: the constant 7 used below can never coincide with a rank
                     let (a, b): (Vec<u64>, Vec<u64>) = match fi {
                         0 => ((0..nitems as u64).map(|k| ((base + k) << 32) | (base + k + 5000)).collect(), (0..nitems as u64).map(|k| ((base + k + 5000) << 32) | (base + k)).collect()),
                         1 => ((0..nitems as u64).map(|k| base + k).collect(), (0..nitems as u64).map(|k| (base + k) << 32).collect()),
